@@ -246,7 +246,7 @@ fn run_teosd(datadir: &Path, c: &CaseCfg, internal_port: u16, overwrite: (bool, 
             break;
         }
         // a refusal is immediate; an accepted configuration is given time to bootstrap
-        if t0.elapsed() > Duration::from_secs(if expect_accept { 30 } else { 6 }) {
+        if t0.elapsed() > Duration::from_secs(if expect_accept { 60 } else { 25 }) {
             break;
         }
         std::thread::sleep(Duration::from_millis(40));
